@@ -24,8 +24,20 @@ theorem Rel.top {st : St} {stk : List Val} {σ : MSt} {k : Nat} {sl : Slot} (hr 
   simp only [hlen]
   exact List.getElem?_eq_getElem _
 
-theorem LocTyped.set {ctx : Ctx} {loc : List Val} (h : LocTyped ctx loc) (k : Nat) (v : Val) (t : VT)
-    (hk : ctx.localTypes[k]? = some t) (hv : vtOf v = t) : LocTyped ctx (loc.set k v) := by
+theorem LocTyped.set {ctx : Ctx} {loc : Store} (h : LocTyped ctx loc) (k : Nat) (v : Val) (t : VT)
+    (hk : ctx.localTypes[k]? = some t) (hv : vtOf v = t) : LocTyped ctx { loc with locals := loc.locals.set k v } := by
+  refine ⟨by simp [h.len], fun j hj hj' => ?_, h.glob⟩
+  simp only [List.length_set] at hj
+  by_cases e : k = j
+  · subst e
+    simp only [List.getElem_set_self, hv]
+    have := (List.getElem?_eq_some_iff.mp hk).2
+    exact this.symm
+  · simp only [List.getElem_set_ne e]
+    exact h.typed j hj hj'
+
+theorem GTyped.set {ctx : Ctx} {g : GS} (h : GTyped ctx g) (k : Nat) (v : Val) (t : VT)
+    (hk : ctx.globalTypes[k]? = some t) (hv : vtOf v = t) : GTyped ctx { g with globals := g.globals.set k v } := by
   refine ⟨by simp [h.1], fun j hj hj' => ?_⟩
   simp only [List.length_set] at hj
   by_cases e : k = j
@@ -37,8 +49,8 @@ theorem LocTyped.set {ctx : Ctx} {loc : List Val} (h : LocTyped ctx loc) (k : Na
     exact h.2 j hj hj'
 
 /-- the shape of every value-producing non-control instruction: pop `n`, push one value into the slot at the new top -/
-theorem simres_pop_push {ctx : Ctx} {st st' : St} {stk loc : List Val} {σ : MSt} (hw : WF st) (hr : Rel st.stack stk σ)
-    (hl : σ.locals = loc) (hlt : LocTyped ctx loc) (n : Nat) (hn : st.base + n ≤ st.stack.length)
+theorem simres_pop_push {ctx : Ctx} {st st' : St} {stk : List Val} {loc : Store} {σ : MSt} (hw : WF st) (hr : Rel st.stack stk σ)
+    (hl : σ.store = loc) (hlt : LocTyped ctx loc) (n : Nat) (hn : st.base + n ≤ st.stack.length)
     (rt : VT) (v : Val) (hv : vtOf v = rt)
     (hwf' : WF st')
     (hlab : st'.labels = st.labels) (hnext : st'.next = st.next) (hstack : st'.stack = st.stack.take (st.stack.length - n) ++ [rt])
@@ -54,9 +66,41 @@ theorem simres_pop_push {ctx : Ctx} {st st' : St} {stk loc : List Val} {σ : MSt
   · rw [List.take_append_of_le_length (by simp; omega), List.take_take]
     congr 1; omega
 
+theorem Rel.withStore {stack : List VT} {stk : List Val} {σ : MSt} (h : Rel stack stk σ) (x : Store) : Rel stack stk { σ with store := x } := h
+
+/-- pop `n`, push one value; globals / memory / locals may change (to a typed store) -/
+theorem simres_pop_push_st {ctx : Ctx} {st st' : St} {stk : List Val} {σ : MSt} (hw : WF st) (hr : Rel st.stack stk σ)
+    (n : Nat) (hn : st.base + n ≤ st.stack.length)
+    (rt : VT) (v : Val) (hv : vtOf v = rt) (loc' : Store) (hlt' : LocTyped ctx loc')
+    (hwf' : WF st')
+    (hlab : st'.labels = st.labels) (hnext : st'.next = st.next) (hstack : st'.stack = st.stack.take (st.stack.length - n) ++ [rt])
+    {m : MRes} (hm : m = .normal (({ σ with store := loc' } : MSt).set ⟨rt, st.stack.length - n⟩ v)) :
+    SimRes ctx st stk σ st' false (.normal (stk.take (stk.length - n) ++ [v]) loc') m := by
+  have hlen := hr.length
+  have hpush := ((hr.withStore loc').take (st.stack.length - n)).push rt v hv
+  have hl3 : (List.take (st.stack.length - n) st.stack).length = st.stack.length - n := by simp
+  rw [hl3] at hpush
+  refine simres_normal_intro rfl hwf' hlab (Nat.le_of_eq hnext.symm) hlt'
+    (({ σ with store := loc' } : MSt).set ⟨rt, st.stack.length - n⟩ v) hm ?_ rfl ?_ ?_
+  · rw [hstack]; simpa [hlen] using hpush
+  · exact (SlotsBelow.locals σ loc').trans (SlotsBelow.set _ _ _ (by simp; omega))
+  · rw [List.take_append_of_le_length (by simp; omega), List.take_take]
+    congr 1; omega
+
+/-- pop `n`, push nothing; the store may change -/
+theorem simres_pop_st {ctx : Ctx} {st st' : St} {stk : List Val} {σ : MSt} (hw : WF st) (hr : Rel st.stack stk σ)
+    (n : Nat) (hn : st.base + n ≤ st.stack.length) (loc' : Store) (hlt' : LocTyped ctx loc')
+    (hwf' : WF st') (hlab : st'.labels = st.labels) (hnext : st'.next = st.next) (hstack : st'.stack = st.stack.take (st.stack.length - n))
+    {m : MRes} (hm : m = .normal { σ with store := loc' }) :
+    SimRes ctx st stk σ st' false (.normal (stk.take (stk.length - n)) loc') m := by
+  have hlen := hr.length
+  refine simres_normal_intro rfl hwf' hlab (Nat.le_of_eq hnext.symm) hlt' { σ with store := loc' } hm ?_ rfl (SlotsBelow.locals σ loc') ?_
+  · rw [hstack, hlen]; exact (hr.withStore loc').take _
+  · rw [List.take_take]; congr 1; omega
+
 /-- pop `n`, push nothing -/
-theorem simres_pop {ctx : Ctx} {st st' : St} {stk loc : List Val} {σ : MSt} (hw : WF st) (hr : Rel st.stack stk σ)
-    (hl : σ.locals = loc) (hlt : LocTyped ctx loc) (n : Nat) (hn : st.base + n ≤ st.stack.length)
+theorem simres_pop {ctx : Ctx} {st st' : St} {stk : List Val} {loc : Store} {σ : MSt} (hw : WF st) (hr : Rel st.stack stk σ)
+    (hl : σ.store = loc) (hlt : LocTyped ctx loc) (n : Nat) (hn : st.base + n ≤ st.stack.length)
     (hwf' : WF st') (hlab : st'.labels = st.labels) (hnext : st'.next = st.next) (hstack : st'.stack = st.stack.take (st.stack.length - n))
     {m : MRes} (hm : m = .normal σ) :
     SimRes ctx st stk σ st' false (.normal (stk.take (stk.length - n)) loc) m := by
@@ -87,9 +131,9 @@ theorem Rel.args {stack : List VT} {stk : List Val} {σ : MSt} (hr : Rel stack s
     congr 1
     omega
 
-theorem num_binary_case {ns : NumSem} {ctx : Ctx} {f : Nat} {st st' : St} {stk loc : List Val} {σ : MSt} {opcode : String} {k : EmitKind}
+theorem num_binary_case {ns : NumSem} {ctx : Ctx} {f : Nat} {st st' : St} {stk : List Val} {loc : Store} {σ : MSt} {opcode : String} {k : EmitKind}
     {s0 s1 : Slot} (hns : NumOK ns) (hk : lookupAssoc Gen.emitTable opcode = some k)
-    (hw : WF st) (hr : Rel st.stack stk σ) (hl : σ.locals = loc) (hlt : LocTyped ctx loc)
+    (hw : WF st) (hr : Rel st.stack stk σ) (hl : σ.store = loc) (hlt : LocTyped ctx loc)
     (h0 : st.top 0 = some s0) (h1 : st.top 1 = some s1) (hge : st.base + 2 ≤ st.stack.length) (rt : VT)
     (harity : ns.arity opcode = 2)
     (hdst : numSlots opcode k s1.ty s1.idx s0.ty s0.idx = (⟨rt, s1.idx⟩, [⟨s1.ty, s1.idx⟩, ⟨s0.ty, s0.idx⟩]))
@@ -126,7 +170,7 @@ theorem num_binary_case {ns : NumSem} {ctx : Ctx} {f : Nat} {st st' : St} {stk l
 
 theorem gotoCopy_sem {s s' : St} {lab : Label} {cp : Option (Slot × Slot)} {stk : List Val} {σ : MSt}
     (hg : gotoCopy s lab = some (s', cp)) (hr : Rel s.stack stk σ) :
-    (doCopy σ cp).locals = σ.locals ∧ SlotsBelow lab.height σ (doCopy σ cp) ∧
+    (doCopy σ cp).store = σ.store ∧ SlotsBelow lab.height σ (doCopy σ cp) ∧
     (∀ ty, lab.type = some ty → ∃ v, stk.getLast? = some v ∧ (doCopy σ cp).get ⟨ty, lab.height⟩ = v) := by
   unfold gotoCopy at hg
   split at hg
@@ -168,7 +212,7 @@ theorem endBlock_declLen_mono (s s' : St) (h h' : Nat) (bt : Option VT) (ls ls' 
   | none => exact hd
   | some t => show max s.declLen (h + 1) ≤ max s'.declLen (h + 1); omega
 
-theorem erun_block (ns : NumSem) (f : Nat) (bt : Option VT) (body : List EInstr) (stk loc : List Val) :
+theorem erun_block (ns : NumSem) (f : Nat) (bt : Option VT) (body : List EInstr) (stk : List Val) (loc : Store) :
     erunInstr ns (f + 1) (.block bt body) stk loc = blockRes stk.length bt (erunSeq ns f body stk loc) := by
   rw [erunInstr]
   cases erunSeq ns f body stk loc with
@@ -185,7 +229,7 @@ theorem check_of_not {deadB : Bool} {a b : List VT} (h : ¬ ((!deadB && decide (
   intro hd; subst hd
   simpa using h
 
-theorem erun_ite (ns : NumSem) (f : Nat) (bt : Option VT) (thn : List EInstr) (els : Option (List EInstr)) (stk loc : List Val) :
+theorem erun_ite (ns : NumSem) (f : Nat) (bt : Option VT) (thn : List EInstr) (els : Option (List EInstr)) (stk : List Val) (loc : Store) :
     erunInstr ns (f + 1) (.ite bt thn els) stk loc =
       match stk.getLast? with
       | none => .stuck
@@ -229,7 +273,7 @@ theorem simres_out_congr {ctx : Ctx} {st : St} {stk : List Val} {σ : MSt} {stOu
     exact ⟨h0, lab, σ', h1, h2, h3, fun ht => Nat.le_trans (h4 ht) hd⟩
   | _ => exact h
 
-theorem erun_loop (ns : NumSem) (f : Nat) (bt : Option VT) (body : List EInstr) (stk loc : List Val) :
+theorem erun_loop (ns : NumSem) (f : Nat) (bt : Option VT) (body : List EInstr) (stk : List Val) (loc : Store) :
     erunInstr ns (f + 1) (.loop bt body) stk loc =
       match erunSeq ns f body stk loc with
       | .branch 0 stk' loc' => erunInstr ns f (.loop bt body) (stk'.take stk.length) loc'
@@ -316,7 +360,7 @@ macro "stuck_case" : tactic => `(tactic| (
     | (cases hc; done)
     | (injection hc with hc; simp only [Prod.mk.injEq] at hc; obtain ⟨_, rfl, _⟩ := hc; exact ⟨by simp, trivial⟩)))
 
-theorem instr_step (ns : NumSem) (hns : NumOK ns) (ctx : Ctx) (hco : CallOK ns ctx) (f : Nat) (hS : SeqStmt ns ctx f) (hI : InstrStmt ns ctx f) :
+theorem instr_step (ns : NumSem) (hns : NumOK ns) (hmo : MemOK ns) (ctx : Ctx) (hco : CallOK ns ctx) (f : Nat) (hS : SeqStmt ns ctx f) (hI : InstrStmt ns ctx f) :
     InstrStmt ns ctx (f + 1) := by
   intro i st st' out dead stk loc σ hc hw hr hl hlt
   have hstat' := instr_static ctx i st st' out dead hc hw
@@ -376,14 +420,14 @@ theorem instr_step (ns : NumSem) (hns : NumOK ns) (ctx : Ctx) (hco : CallOK ns c
       rw [erunInstr]
       have hkl : k < ctx.localTypes.length := (List.getElem?_eq_some_iff.mp hk).1
       have hkt : ctx.localTypes[k] = t := (List.getElem?_eq_some_iff.mp hk).2
-      have hkl' : k < loc.length := by rw [hlt.1]; exact hkl
-      have hv : loc[k]? = some loc[k] := List.getElem?_eq_getElem hkl'
-      have hty : vtOf loc[k] = t := by rw [hlt.2 k hkl' hkl, hkt]
+      have hkl' : k < loc.locals.length := by rw [hlt.len]; exact hkl
+      have hv : loc.locals[k]? = some loc.locals[k] := List.getElem?_eq_getElem hkl'
+      have hty : vtOf loc.locals[k] = t := by rw [hlt.typed k hkl' hkl, hkt]
       simp only [hv]
       have hb := hw.base_le_height
       refine simres_normal_intro rfl hwf' rfl (Nat.le_refl _) hlt
-        (σ.set ⟨t, st.stack.length⟩ loc[k]) (by simp [execOut, execStmt, hl, hv]) ?_ (by simp [hl]) (SlotsBelow.set _ _ _ hb) ?_
-      · simpa using hr.push t loc[k] hty
+        (σ.set ⟨t, st.stack.length⟩ loc.locals[k]) (by simp [execOut, execStmt, hl, hv]) ?_ (by simp [hl]) (SlotsBelow.set _ _ _ hb) ?_
+      · simpa using hr.push t loc.locals[k] hty
       · rw [List.take_append_of_le_length (by rw [hr.length]; exact hb)]
   | localSet k =>
     simp only [compileInstr] at hc
@@ -406,12 +450,12 @@ theorem instr_step (ns : NumSem) (hns : NumOK ns) (ctx : Ctx) (hco : CallOK ns c
           have hge : st.base + 1 ≤ st.stack.length := by simp [St.height] at hcond; omega
           have hs0 : (⟨t, s0.idx⟩ : Slot) = s0 := by cases s0; simp_all
           have hlast : stk.getLast? = some (σ.get s0) := by rw [List.getLast?_eq_getElem?]; simpa using ht3
-          have hkl : k < loc.length := by rw [hlt.1]; exact (List.getElem?_eq_some_iff.mp hk).1
+          have hkl : k < loc.locals.length := by rw [hlt.len]; exact (List.getElem?_eq_some_iff.mp hk).1
           simp only [hlast, hkl, if_true]
           have hlen := hr.length
           refine simres_normal_intro rfl hwf'
             rfl (Nat.le_refl _) (hlt.set k _ t hk (by rw [vtOf_get]; exact hty))
-            { σ with locals := σ.locals.set k (σ.get s0) } (by simp [execOut, execStmt, hl, hkl, hs0]) ?_ (by simp [hl]) (SlotsBelow.locals _ _) ?_
+            { σ with store := { σ.store with locals := σ.store.locals.set k (σ.get s0) } } (by simp [execOut, execStmt, hl, hkl, hs0]) ?_ (by simp [hl]) (SlotsBelow.locals _ _) ?_
           · have := hr.take (st.stack.length - 1)
             simpa [List.dropLast_eq_take, hlen, Rel, MSt.get] using this
           · rw [List.dropLast_eq_take, List.take_take]
@@ -436,11 +480,11 @@ theorem instr_step (ns : NumSem) (hns : NumOK ns) (ctx : Ctx) (hco : CallOK ns c
           have hty : s0.ty = t := by simp at hcond; exact hcond.1
           have hs0 : (⟨t, s0.idx⟩ : Slot) = s0 := by cases s0; simp_all
           have hlast : stk.getLast? = some (σ.get s0) := by rw [List.getLast?_eq_getElem?]; simpa using ht3
-          have hkl : k < loc.length := by rw [hlt.1]; exact (List.getElem?_eq_some_iff.mp hk).1
+          have hkl : k < loc.locals.length := by rw [hlt.len]; exact (List.getElem?_eq_some_iff.mp hk).1
           simp only [hlast, hkl, if_true]
           refine simres_normal_intro rfl hwf'
             rfl (Nat.le_refl _) (hlt.set k _ t hk (by rw [vtOf_get]; exact hty))
-            { σ with locals := σ.locals.set k (σ.get s0) } (by simp [execOut, execStmt, hl, hkl, hs0]) ?_ (by simp [hl]) (SlotsBelow.locals _ _) rfl
+            { σ with store := { σ.store with locals := σ.store.locals.set k (σ.get s0) } } (by simp [execOut, execStmt, hl, hkl, hs0]) ?_ (by simp [hl]) (SlotsBelow.locals _ _) rfl
           · simpa [Rel, MSt.get] using hr
   | select =>
     rw [compileInstr] at hc
@@ -903,12 +947,180 @@ theorem instr_step (ns : NumSem) (hns : NumOK ns) (ctx : Ctx) (hco : CallOK ns c
             rw [loopExec_of_ne ns f st.next outB _ hne]
             exact block_finish_gen (sIn := { st with labels := st.labels ++ [⟨st.next, st.height, none⟩], next := st.next + 1 })
               hw hr rfl (Nat.le_refl _) (by intro a b h; cases h) rfl hstat (check_of_not hchk) hsim
-  | globalGet k => stuck_case
-  | globalSet k => stuck_case
-  | load o off => stuck_case
-  | store o off => stuck_case
-  | memorySize => stuck_case
-  | memoryGrow => stuck_case
+  | globalGet k =>
+    simp only [compileInstr] at hc
+    cases hk : ctx.globalTypes[k]? with
+    | none => simp [hk] at hc
+    | some t =>
+      simp only [hk] at hc
+      injection hc with hc; simp only [Prod.mk.injEq] at hc
+      obtain ⟨rfl, rfl, rfl⟩ := hc
+      refine ⟨by simp, ?_⟩
+      rw [erunInstr]
+      have hkl : k < ctx.globalTypes.length := (List.getElem?_eq_some_iff.mp hk).1
+      have hkt : ctx.globalTypes[k] = t := (List.getElem?_eq_some_iff.mp hk).2
+      have hkl' : k < loc.g.globals.length := by rw [hlt.glob.1]; exact hkl
+      have hv : loc.g.globals[k]? = some loc.g.globals[k] := List.getElem?_eq_getElem hkl'
+      have hty : vtOf loc.g.globals[k] = t := by rw [hlt.glob.2 k hkl' hkl, hkt]
+      simp only [hv]
+      have hb := hw.base_le_height
+      refine simres_normal_intro rfl hwf' rfl (Nat.le_refl _) hlt
+        (σ.set ⟨t, st.stack.length⟩ loc.g.globals[k]) (by simp [execOut, execStmt, hl, hv]) ?_ (by simp [hl]) (SlotsBelow.set _ _ _ hb) ?_
+      · simpa using hr.push t loc.g.globals[k] hty
+      · rw [List.take_append_of_le_length (by rw [hr.length]; exact hb)]
+  | globalSet k =>
+    simp only [compileInstr] at hc
+    cases hk : ctx.globalTypes[k]? with
+    | none => simp [hk] at hc
+    | some t =>
+      cases ht : st.top 0 with
+      | none => simp [hk, ht] at hc
+      | some s0 =>
+        simp only [hk, ht] at hc
+        split at hc
+        · cases hc
+        · rename_i hcond
+          injection hc with hc; simp only [Prod.mk.injEq] at hc
+          obtain ⟨rfl, rfl, rfl⟩ := hc
+          refine ⟨by simp, ?_⟩
+          rw [erunInstr]
+          obtain ⟨ht1, ht2, ht3⟩ := hr.top ht
+          have hty : s0.ty = t := by simp at hcond; exact hcond.1
+          have hge : st.base + 1 ≤ st.stack.length := by simp [St.height] at hcond; omega
+          have hs0 : (⟨t, s0.idx⟩ : Slot) = s0 := by cases s0; simp_all
+          have hlast : stk.getLast? = some (σ.get s0) := by rw [List.getLast?_eq_getElem?]; simpa using ht3
+          have hkl : k < loc.g.globals.length := by rw [hlt.glob.1]; exact (List.getElem?_eq_some_iff.mp hk).1
+          simp only [hlast, hkl, if_true]
+          rw [List.dropLast_eq_take]
+          subst hl
+          refine simres_pop_st hw hr 1 hge { σ.store with g := { σ.store.g with globals := σ.store.g.globals.set k (σ.get s0) } }
+            ⟨hlt.len, hlt.typed, hlt.glob.set k _ t hk (by rw [vtOf_get]; exact hty)⟩ hwf' rfl rfl rfl ?_
+          simp [execOut, execStmt, hkl, hs0]
+  | load o off =>
+    rw [compileInstr] at hc
+    cases hld : lookupAssoc Gen.loadTable o with
+    | none => simp [hld, bind, Except.bind] at hc
+    | some r =>
+      obtain ⟨fn, rt⟩ := r
+      cases ht : st.top 0 with
+      | none => simp [hld, ht, bind, Except.bind] at hc
+      | some s0 =>
+        simp only [hld, ht, bind, Except.bind] at hc
+        split at hc
+        · cases hc
+        · rename_i hcond
+          injection hc with hc; simp only [Prod.mk.injEq] at hc
+          obtain ⟨rfl, rfl, rfl⟩ := hc
+          refine ⟨by simp, ?_⟩
+          rw [erunInstr]
+          obtain ⟨ht1, ht2, ht3⟩ := hr.top ht
+          simp only [Nat.sub_zero] at ht2 ht3
+          have hge : st.base + 1 ≤ st.stack.length := by simp [St.height] at hcond; omega
+          have hlast : stk.getLast? = some (σ.get s0) := by rw [List.getLast?_eq_getElem?]; exact ht3
+          have hlen := hr.length
+          simp only [hlast]
+          have hex : execOut ns (f + 1) [MStmtC.load ⟨rt, s0.idx⟩ fn s0 off] σ =
+              (match ns.loadT fn σ.store.g.mem ((σ.get s0).bits + off) with
+               | .val v => MRes.normal (σ.set ⟨rt, s0.idx⟩ v) | .trap t => .trap t | .oof => .oof | _ => .stuck) := rfl
+          rw [hex, hl]
+          cases hls : ns.loadS o loc.g.mem ((σ.get s0).bits + off) with
+          | val v =>
+            obtain ⟨h1, h2⟩ := hmo.loadRef o fn rt _ _ v hld hls
+            rw [h1, List.dropLast_eq_take]
+            refine simres_pop_push hw hr hl hlt 1 hge rt v h2 hwf' rfl rfl rfl ?_
+            show MRes.normal _ = _
+            rw [ht2, hlen]
+          | trap t => rw [hmo.loadTrap o fn rt _ _ t hld hls]; rfl
+          | ub => trivial
+          | oof => trivial
+  | store o off =>
+    rw [compileInstr] at hc
+    cases hst : lookupAssoc Gen.storeTable o with
+    | none => simp [hst, bind, Except.bind] at hc
+    | some fn =>
+      cases h0 : st.top 0 with
+      | none => simp [hst, h0, bind, Except.bind] at hc
+      | some s0 =>
+      cases h1 : st.top 1 with
+      | none => simp [hst, h0, h1, bind, Except.bind] at hc
+      | some s1 =>
+        simp only [hst, h0, h1, bind, Except.bind] at hc
+        split at hc
+        · cases hc
+        · rename_i hcond
+          injection hc with hc; simp only [Prod.mk.injEq] at hc
+          obtain ⟨rfl, rfl, rfl⟩ := hc
+          refine ⟨by simp, ?_⟩
+          rw [erunInstr]
+          obtain ⟨a1, a2, a3⟩ := hr.top h0
+          obtain ⟨b1, b2, b3⟩ := hr.top h1
+          simp only [Nat.sub_zero] at a2 a3
+          have e2 : stk.length - 1 - 1 = stk.length - 2 := by omega
+          rw [e2] at b2 b3
+          have hge : st.base + 2 ≤ st.stack.length := by simp [St.height] at hcond; omega
+          have hlen := hr.length
+          have hnlt : ¬ stk.length < 2 := by omega
+          simp only [hnlt, if_false, List.getD_eq_getElem?_getD, a3, b3, Option.getD_some]
+          have hex : execOut ns (f + 1) [MStmtC.store fn s1 off s0] σ =
+              (match ns.storeT fn σ.store.g.mem ((σ.get s1).bits + off) (σ.get s0) with
+               | .val m' => MRes.normal { σ with store := { σ.store with g := { σ.store.g with mem := m' } } }
+               | .trap t => .trap t | .oof => .oof | _ => .stuck) := rfl
+          rw [hex, hl]
+          cases hss : ns.storeS o loc.g.mem ((σ.get s1).bits + off) (σ.get s0) with
+          | val m' =>
+            rw [hmo.storeRef o fn _ _ _ m' hst hss]
+            subst hl
+            exact simres_pop_st hw hr 2 hge { σ.store with g := { σ.store.g with mem := m' } } ⟨hlt.len, hlt.typed, hlt.glob⟩ hwf' rfl rfl rfl rfl
+          | trap t => rw [hmo.storeTrap o fn _ _ _ t hst hss]; rfl
+          | ub => trivial
+          | oof => trivial
+  | memorySize =>
+    simp [compileInstr] at hc
+    obtain ⟨rfl, rfl, rfl⟩ := hc
+    refine ⟨by simp, ?_⟩
+    rw [erunInstr]
+    have hb := hw.base_le_height
+    refine simres_normal_intro rfl hwf' rfl (Nat.le_refl _) hlt
+      (σ.set ⟨.i32, st.stack.length⟩ (.i32 (BitVec.ofNat 32 (loc.g.mem.size / wasmPage)))) (by simp [execOut, execStmt, hl]) ?_ (by simp [hl]) (SlotsBelow.set _ _ _ hb) ?_
+    · simpa using hr.push .i32 _ rfl
+    · rw [List.take_append_of_le_length (by rw [hr.length]; exact hb)]
+  | memoryGrow =>
+    rw [compileInstr] at hc
+    cases ht : st.top 0 with
+    | none => simp [ht, bind, Except.bind] at hc
+    | some s0 =>
+      simp only [ht, bind, Except.bind] at hc
+      split at hc
+      · cases hc
+      · rename_i hcond
+        injection hc with hc; simp only [Prod.mk.injEq] at hc
+        obtain ⟨rfl, rfl, rfl⟩ := hc
+        refine ⟨by simp, ?_⟩
+        rw [erunInstr]
+        obtain ⟨ht1, ht2, ht3⟩ := hr.top ht
+        obtain ⟨u1, u2, u3⟩ := St.top_spec ht
+        simp only [Nat.sub_zero] at ht2 ht3 u2 u3
+        have hty : s0.ty = .i32 := by simp at hcond; exact hcond.1
+        have hge : st.base + 1 ≤ st.stack.length := by simp [St.height] at hcond; omega
+        have hlast : stk.getLast? = some (σ.get s0) := by rw [List.getLast?_eq_getElem?]; exact ht3
+        have hlen := hr.length
+        simp only [hlast]
+        rw [List.dropLast_eq_take]
+        have hstack : st.stack = st.stack.take (st.stack.length - 1) ++ [.i32] := by
+          have hi : st.stack.length - 1 < st.stack.length := by omega
+          have := List.take_append_getElem hi
+          rw [List.getElem?_eq_getElem hi] at u3
+          injection u3 with u3
+          rw [u3, hty] at this
+          have e : st.stack.length - 1 + 1 = st.stack.length := by omega
+          rw [e, List.take_length] at this
+          exact this.symm
+        subst hl
+        refine simres_pop_push_st hw hr 1 hge .i32 _ (hmo.growTyped _ _)
+          { σ.store with g := { σ.store.g with mem := (ns.grow σ.store.g.mem (σ.get s0).bits).1 } } ⟨hlt.len, hlt.typed, hlt.glob⟩ hwf' rfl rfl hstack ?_
+        show execStmt ns (f + 1) (MStmtC.memGrow ⟨.i32, s0.idx⟩ s0) σ = _
+        simp only [execStmt]
+        rw [u2]
   | memoryCopy => stuck_case
   | memoryFill => stuck_case
   | memoryInit seg => stuck_case
@@ -943,19 +1155,22 @@ theorem instr_step (ns : NumSem) (hns : NumOK ns) (ctx : Ctx) (hco : CallOK ns c
             have har := hco.arity fn ti ft hti hft (by simp [hres])
             simp only [hres, List.head?_nil, Option.map_none] at har
             simp only [har, hnlt, if_false]
-            cases hcs : ns.callS fn (topN ft.params.length stk) with
+            subst hl
+            cases hcs : ns.callS fn (topN ft.params.length stk) σ.store.g with
             | val r =>
-              cases r with
+              obtain ⟨rv, g'⟩ := r
+              have hpres := hco.pres fn _ _ _ hlt.glob hcs
+              cases rv with
               | some v => trivial
               | none =>
-                have hct := hco.refVal fn _ _ hcs
+                have hct := hco.refVal fn _ _ _ hlt.glob hcs
                 simp only [afterCall]
-                refine simres_pop hw hr hl hlt ft.params.length hge' hwf' rfl rfl rfl ?_
+                refine simres_pop_st hw hr ft.params.length hge' { σ.store with g := g' } ⟨hlt.len, hlt.typed, hpres⟩ hwf' rfl rfl rfl ?_
                 show execStmt ns (f + 1) (MStmtC.call none fn _) σ = _
                 simp only [execStmt, St.height]
                 rw [hargs, hct]
             | trap t =>
-              have hct := hco.refTrap fn _ _ hcs
+              have hct := hco.refTrap fn _ _ _ hlt.glob hcs
               show execStmt ns (f + 1) (MStmtC.call none fn _) σ = _
               simp only [execStmt, St.height]
               rw [hargs, hct]
@@ -972,20 +1187,23 @@ theorem instr_step (ns : NumSem) (hns : NumOK ns) (ctx : Ctx) (hco : CallOK ns c
               have har := hco.arity fn ti ft hti hft (by simp [hres])
               simp only [hres, List.head?_cons, Option.map_some] at har
               simp only [har, hnlt, if_false]
-              cases hcs : ns.callS fn (topN ft.params.length stk) with
-              | val rv =>
+              subst hl
+              cases hcs : ns.callS fn (topN ft.params.length stk) σ.store.g with
+              | val rr =>
+                obtain ⟨rv, g'⟩ := rr
+                have hpres := hco.pres fn _ _ _ hlt.glob hcs
                 cases rv with
                 | none => trivial
                 | some v =>
-                  have hct := hco.refVal fn _ _ hcs
-                  have hv := hco.typed fn _ _ _ v har hcs
+                  have hct := hco.refVal fn _ _ _ hlt.glob hcs
+                  have hv := hco.typed fn _ _ _ _ v g' hlt.glob har hcs
                   simp only [afterCall]
-                  refine simres_pop_push hw hr hl hlt ft.params.length hge' (vtOfW r) v hv hwf' rfl rfl rfl ?_
+                  refine simres_pop_push_st hw hr ft.params.length hge' (vtOfW r) v hv { σ.store with g := g' } ⟨hlt.len, hlt.typed, hpres⟩ hwf' rfl rfl rfl ?_
                   show execStmt ns (f + 1) (MStmtC.call (some _) fn _) σ = _
                   simp only [execStmt, St.height]
                   rw [hargs, hct]
               | trap t =>
-                have hct := hco.refTrap fn _ _ hcs
+                have hct := hco.refTrap fn _ _ _ hlt.glob hcs
                 show execStmt ns (f + 1) (MStmtC.call (some _) fn _) σ = _
                 simp only [execStmt, St.height]
                 rw [hargs, hct]
@@ -1042,20 +1260,23 @@ theorem instr_step (ns : NumSem) (hns : NumOK ns) (ctx : Ctx) (hco : CallOK ns c
             have har := hco.indArity ty ft hft (by simp [hres])
             simp only [hres, List.head?_nil, Option.map_none] at har
             simp only [har, hnlt, if_false, hidx]
-            cases hcs : ns.indS ty (σ.get idx).bits (topN ft.params.length stk.dropLast) with
+            subst hl
+            cases hcs : ns.indS ty (σ.get idx).bits (topN ft.params.length stk.dropLast) σ.store.g with
             | val r =>
-              cases r with
+              obtain ⟨rv, g'⟩ := r
+              have hpres := hco.indPres ty _ _ _ _ hlt.glob hcs
+              cases rv with
               | some v => trivial
               | none =>
-                have hct := hco.indRefVal ty _ _ _ hcs
+                have hct := hco.indRefVal ty _ _ _ _ hlt.glob hcs
                 simp only [afterCall]
                 refine simres_rebase hw rfl (Nat.le_refl _) (SlotsBelow.refl _ _) htake ?_
-                refine simres_pop hw0 hr0 hl hlt ft.params.length hge0 hwf' rfl rfl hstk0.symm ?_
+                refine simres_pop_st hw0 hr0 ft.params.length hge0 { σ.store with g := g' } ⟨hlt.len, hlt.typed, hpres⟩ hwf' rfl rfl hstk0.symm ?_
                 show execStmt ns (f + 1) (MStmtC.callIndirect none ty tbl idx _) σ = _
                 simp only [execStmt, St.height]
                 rw [hargs, hct]
             | trap t =>
-              have hct := hco.indRefTrap ty _ _ _ hcs
+              have hct := hco.indRefTrap ty _ _ _ _ hlt.glob hcs
               show execStmt ns (f + 1) (MStmtC.callIndirect none ty tbl idx _) σ = _
               simp only [execStmt, St.height]
               rw [hargs, hct]
@@ -1072,23 +1293,26 @@ theorem instr_step (ns : NumSem) (hns : NumOK ns) (ctx : Ctx) (hco : CallOK ns c
               have har := hco.indArity ty ft hft (by simp [hres])
               simp only [hres, List.head?_cons, Option.map_some] at har
               simp only [har, hnlt, if_false, hidx]
-              cases hcs : ns.indS ty (σ.get idx).bits (topN ft.params.length stk.dropLast) with
-              | val rv =>
+              subst hl
+              cases hcs : ns.indS ty (σ.get idx).bits (topN ft.params.length stk.dropLast) σ.store.g with
+              | val rr =>
+                obtain ⟨rv, g'⟩ := rr
+                have hpres := hco.indPres ty _ _ _ _ hlt.glob hcs
                 cases rv with
                 | none => trivial
                 | some v =>
-                  have hct := hco.indRefVal ty _ _ _ hcs
-                  have hv := hco.indTyped ty _ _ _ _ v har hcs
+                  have hct := hco.indRefVal ty _ _ _ _ hlt.glob hcs
+                  have hv := hco.indTyped ty _ _ _ _ _ v g' hlt.glob har hcs
                   simp only [afterCall]
                   refine simres_rebase hw rfl (Nat.le_refl _) (SlotsBelow.refl _ _) htake ?_
-                  refine simres_pop_push hw0 hr0 hl hlt ft.params.length hge0 (vtOfW r) v hv hwf' rfl rfl ?_ ?_
+                  refine simres_pop_push_st hw0 hr0 ft.params.length hge0 (vtOfW r) v hv { σ.store with g := g' } ⟨hlt.len, hlt.typed, hpres⟩ hwf' rfl rfl ?_ ?_
                   · show st.stack.take (st.stack.length - (ft.params.length + 1)) ++ [vtOfW r] = _
                     rw [hstk0]
                   · show execStmt ns (f + 1) (MStmtC.callIndirect (some _) ty tbl idx _) σ = _
                     simp only [execStmt, St.height]
                     rw [hargs, hct, hl0]
               | trap t =>
-                have hct := hco.indRefTrap ty _ _ _ hcs
+                have hct := hco.indRefTrap ty _ _ _ _ hlt.glob hcs
                 show execStmt ns (f + 1) (MStmtC.callIndirect (some _) ty tbl idx _) σ = _
                 simp only [execStmt, St.height]
                 rw [hargs, hct]
@@ -1188,11 +1412,11 @@ theorem instr_out_len {ctx : Ctx} {st st' : St} {i : EInstr} {out : List MStmtC}
   cases i <;> out_len_case
 
 /-- the simulation statement for sequences and single instructions, for every amount of fuel -/
-theorem sim_all (ns : NumSem) (hns : NumOK ns) (ctx : Ctx) (hco : CallOK ns ctx) : ∀ f, SeqStmt ns ctx f ∧ InstrStmt ns ctx f
+theorem sim_all (ns : NumSem) (hns : NumOK ns) (hmo : MemOK ns) (ctx : Ctx) (hco : CallOK ns ctx) : ∀ f, SeqStmt ns ctx f ∧ InstrStmt ns ctx f
   | 0 => ⟨fun is st st' out dead stk loc σ _ _ _ _ _ => by rw [erunSeq]; trivial,
           fun i st st' out dead stk loc σ hc _ _ _ _ => ⟨instr_out_len hc, by rw [erunInstr]; trivial⟩⟩
   | f + 1 =>
-    have ih := sim_all ns hns ctx hco f
-    ⟨seq_step ns ctx f ih.1 ih.2, instr_step ns hns ctx hco f ih.1 ih.2⟩
+    have ih := sim_all ns hns hmo ctx hco f
+    ⟨seq_step ns ctx f ih.1 ih.2, instr_step ns hns hmo ctx hco f ih.1 ih.2⟩
 
 end W2c2Verif.Sim
